@@ -181,7 +181,7 @@ class Rule(object):
         try:
             validator.validate(uri)
             is_valid = True
-        except (InvalidComponentsError, MissingComponentError, UnpermittedComponentError) as ex:
+        except (InvalidComponentsError, MissingComponentError, UnpermittedComponentError, UnicodeError) as ex:
             logger.debug(ex)
         return is_valid
 
